@@ -326,11 +326,44 @@ func checkDowngrade(r *Report, p *Prog) {
 		}
 		// must be under "no certificate string was found": empty(<the accumulated cert string>)
 		okE := false
+		if os.Getenv("SAMLVERIF_DEBUG") != "" {
+			fmt.Printf("DEBUG c08 errnotexist cond support: %v\n", B2.Support(fs.Cond(ret.Block())))
+		}
 		for _, name := range B2.Support(fs.Cond(ret.Block())) {
 			ai := a2.Atoms[name]
 			if ai != nil && ai.Kind == "empty" && (strings.HasPrefix(ai.Args[0], "phi#") || strings.HasPrefix(ai.Args[0], "firstSet(")) && fs.Implied(ret.Block(), B2.Var(name)) {
 				okE = true
 			}
+		}
+		// ... or, when the search is made by helpers that hand back (certificate, found): the return is reached only when
+		// no call of such a helper found one (its condition contradicts the condition of every "found" return)
+		if !okE {
+			nFound := 0
+			contradictsAll := true
+			for _, b := range sel.Blocks {
+				for _, in := range b.Instrs {
+					c, ok := in.(*ssa.Call)
+					if !ok || c.Call.StaticCallee() == nil {
+						continue
+					}
+					h := c.Call.StaticCallee()
+					res := h.Signature.Results()
+					if !p.InLibrary(h) || len(h.Blocks) == 0 || res.Len() != 2 || !isStringType(res.At(0).Type()) || !isBoolType(res.At(1).Type()) {
+						continue
+					}
+					sub := fs.inlineCtx(h, c.Call.Args, c)
+					sub.ensureConds()
+					for _, hr := range sub.Returns() {
+						if k, isC := hr.Results[1].(*ssa.Const); isC && k.Value != nil && k.Value.ExactString() == "true" {
+							nFound++
+							if B2.And(fs.Cond(ret.Block()), sub.AbsCond(hr.Block())) != B2.False {
+								contradictsAll = false
+							}
+						}
+					}
+				}
+			}
+			okE = nFound > 0 && contradictsAll
 		}
 		r.Check(okE, rule, p.FnName(sel)+": ErrNotExist only when no certificate string was found", p.InstrPos(ret), "under certStr == \"\"", "os.ErrNotExist is returned on a path that is not 'no certificate found' (for instance on a decode/parse failure): the caller then sends the assertion in clear")
 		// ... and that return is not reachable after a decode/parse call
@@ -466,7 +499,7 @@ func checkDowngrade(r *Report, p *Prog) {
 						}
 					}
 				case *ssa.Return:
-					if fn != sel && len(x.Results) == 1 {
+					if fn != sel && (len(x.Results) == 1 || len(x.Results) == 2 && isBoolType(x.Results[1].Type())) {
 						if _, isPhi := x.Results[0].(*ssa.Phi); !isPhi {
 							if ap := fcx.AP(x.Results[0]); strings.Contains(ap, "X509Certificates") {
 								judge(fn, fcx, ap, b)
@@ -496,7 +529,7 @@ func checkDowngrade(r *Report, p *Prog) {
 			if !overDescriptors {
 				continue
 			}
-			if rt, ok := b.Instrs[len(b.Instrs)-1].(*ssa.Return); ok && fn != sel && len(rt.Results) == 1 && isEmptyStringConst(rt.Results[0]) {
+			if rt, ok := b.Instrs[len(b.Instrs)-1].(*ssa.Return); ok && fn != sel && len(rt.Results) >= 1 && isEmptyStringConst(rt.Results[0]) {
 				r.Bad(rule, fmt.Sprintf("%s: the scan over the key descriptors ends only with a certificate or at the last descriptor", p.FnName(fn)), p.InstrPos(rt), "the function returns \"\" from inside the loop: the first descriptor of the wanted use that carries no certificate ends the search, later descriptors with a certificate are never looked at, and the response falls back to cleartext")
 			}
 		}
@@ -1040,7 +1073,10 @@ func stringHelpersOf(p *Prog, fn *ssa.Function) []*ssa.Function {
 				continue
 			}
 			h := c.Call.StaticCallee()
-			if seen[h] || !p.InLibrary(h) || len(h.Blocks) == 0 || h.Signature.Results().Len() != 1 || !isStringType(h.Signature.Results().At(0).Type()) {
+			// (a helper that hands back the certificate string, alone or with a "found" flag)
+			res := h.Signature.Results()
+			okSig := res.Len() == 1 && isStringType(res.At(0).Type()) || res.Len() == 2 && isStringType(res.At(0).Type()) && isBoolType(res.At(1).Type())
+			if seen[h] || !p.InLibrary(h) || len(h.Blocks) == 0 || !okSig {
 				continue
 			}
 			seen[h] = true
